@@ -16,7 +16,15 @@ import time
 VERIF_DIR = os.path.dirname(os.path.dirname(os.path.abspath(__file__)))
 KNOWN_FILE = os.path.join(VERIF_DIR, "known_findings.json")
 
-QUICK_BUDGET_S = 40.0
+# Quick tier: a fixed amount of work, not a fixed amount of time.  Each property runs the first QUICK_RUNS[id] seeded
+# scenarios (indices 0..N-1 of the stream that VERIF_SEED selects), so what a quick run explores - and what its evidence
+# file reports - is a function of (seed, tree) and not of how fast or how freshly booted the machine is.  The quotas
+# are what 16 workers complete in about 30 s on the development machine; QUICK_CEILING_S is only a safety net for a
+# machine many times slower (the evidence then says so: coverage.ceiling_hit).  VERIF_BUDGET_S / --budget switch to
+# "as many runs as fit into this many seconds" (the thorough tier, sweeps and the sensitivity tools work that way).
+QUICK_RUNS = {"C02": 6000, "C03": 6000, "C04": 3400, "C06": 4000, "C08": 15000, "C09": 13000, "C10": 6400, "C11": 7600,
+              "C12": 2500, "C14": 2500, "C15": 4400, "C16": 900, "C17": 7600, "C18": 10000, "C20": 3000}
+QUICK_CEILING_S = 300.0
 THOROUGH_BUDGET_S = 900.0
 
 
@@ -27,7 +35,13 @@ def log(*a):
 def _env_setup():
     """Re-exec once so that hash seed and BLAS threading are pinned."""
     want = {"OMP_NUM_THREADS": "1", "OPENBLAS_NUM_THREADS": "1", "MKL_NUM_THREADS": "1",
-            "NUMEXPR_NUM_THREADS": "1", "HDF5_USE_FILE_LOCKING": "FALSE", "MPLBACKEND": "Agg"}
+            "NUMEXPR_NUM_THREADS": "1", "HDF5_USE_FILE_LOCKING": "FALSE", "MPLBACKEND": "Agg",
+            # Large arrays come from the process heap and are reused within a run instead of being mapped, zeroed and
+            # unmapped once per temporary (a survey-sized scenario allocates ~8 GB in total for a 1.2 GB peak), and are
+            # not backed by transparent huge pages: on a freshly restored sandbox, whose memory has never been touched,
+            # first-touch faults on 2 MB pages made such a run cost 19 s instead of 4 s - throughput then depended on
+            # how long the machine had been up.  Neither setting changes a computed value (digests are identical).
+            "MALLOC_MMAP_MAX_": "0", "MALLOC_TRIM_THRESHOLD_": "100000000000", "NUMPY_MADVISE_HUGEPAGE": "0"}
     need = False
     if "PYTHONHASHSEED" not in os.environ:
         os.environ["PYTHONHASHSEED"] = "0"
@@ -154,8 +168,16 @@ def check(pid, tier, verif_seed, budget_s=None, nworkers=None, max_runs=None):
     prop = load_prop(pid)
     nworkers = nworkers or int(os.environ.get("VERIF_WORKERS", "16"))
     if budget_s is None:
-        budget_s = float(os.environ.get("VERIF_BUDGET_S", "0") or 0) or (
-            QUICK_BUDGET_S if tier == "quick" else THOROUGH_BUDGET_S)
+        budget_s = float(os.environ.get("VERIF_BUDGET_S", "0") or 0) or None
+    max_runs = max_runs or int(os.environ.get("VERIF_MAX_RUNS", "0") or 0) or None
+    quota = None
+    if budget_s is None:
+        if tier == "quick":
+            # fixed work: the first `quota` scenarios of the seed's stream, under a generous wall-clock ceiling
+            quota = max_runs or QUICK_RUNS.get(pid, 3000)
+            budget_s = float(os.environ.get("VERIF_CEILING_S", "0") or 0) or QUICK_CEILING_S
+        else:
+            budget_s = THOROUGH_BUDGET_S
     known = load_known()
     open_known = [k for k in known.get("open", []) if k["property"] == pid]
     known_sigs = {k["signature"] for k in open_known}
@@ -196,7 +218,7 @@ def check(pid, tier, verif_seed, budget_s=None, nworkers=None, max_runs=None):
     ndet = 24 if tier == "quick" else 200
     ndet = int(os.environ.get("VERIF_NDET", ndet))
     est = getattr(prop, "EST_RUN_S", 0.05)
-    cap = max_runs or int(os.environ.get("VERIF_MAX_RUNS", "0") or 0) or int(max(200, min(4_000_000, budget_s * nworkers / est * 6)))
+    cap = quota or max_runs or int(max(200, min(4_000_000, budget_s * nworkers / est * 6)))
     for i in range(cap):
         jobs.append((("run", i), _gen_job(prop, verif_seed, tier, i)))
     deadline = t_start + budget_s
@@ -311,6 +333,10 @@ def check(pid, tier, verif_seed, budget_s=None, nworkers=None, max_runs=None):
         "violations": len(reported),
         "coverage": {
             "evaluations": int(agg["runs"]),
+            "work_rule": ("fixed quota: scenarios 0..%d of the stream selected by VERIF_SEED=%s" % (quota - 1, verif_seed)) if quota
+                         else "time budget: as many scenarios of the stream, in index order, as started within %.0f s" % budget_s,
+            "work_quota": quota,
+            "ceiling_hit": bool(quota and exit_code == 0 and not harness_errors and agg["runs"] < enum_count + quota),
             "distinct_nontrivial": int(len(agg["fingerprints"])),
             "rule": getattr(prop, "RULE", ""),
             "samples": samples or [{"note": "no non-trivial run completed"}],
@@ -347,6 +373,9 @@ def check(pid, tier, verif_seed, budget_s=None, nworkers=None, max_runs=None):
     log("%s tier=%s seed=%s: %d runs (%d non-trivial, %d fingerprints), %d oracle evaluations, faults %s, %.1fs"
         % (pid, tier, verif_seed, agg["runs"], agg["nontrivial"], len(agg["fingerprints"]), agg["checks"],
            agg["faults"], wall))
+    if ev["coverage"]["ceiling_hit"]:
+        log("NOTE: the wall-clock ceiling of %.0f s ended the quick run after %d of %d scenarios" % (
+            budget_s, agg["runs"], enum_count + quota))
     if harness_errors:
         for h in harness_errors[:5]:
             log("HARNESS-ERROR: " + h[:3000])
